@@ -176,4 +176,125 @@ theorem Shape.splice {nodes : List (Node α)} {r f w : Nat} (h : Shape nodes r f
   · intro _
     rw [hlen]; have := h.f_le; omega
 
+/-! ### where the split point lies -/
+
+theorem Shape.wf {nodes : List (Node α)} {r f w : Nat} {app : Bool} (h : Shape nodes r f w false app) :
+    ∀ nd ∈ nodes, nd.buf.length + nd.pend.length = nd.malloc := by
+  intro nd hnd
+  obtain ⟨i, hi⟩ := List.getElem?_of_mem hnd
+  exact ((h.node i nd hi).2.2.2.1 rfl).1
+
+/-- `MallocLen` is the number of pending bytes from the flush node on -/
+theorem R.mallocSize_eq {b : LB α} {q : Q α} (hR : R b q) {app : Bool}
+    (hsh : Shape b.nodes b.r b.f b.w false app) : b.mallocSize = pendSum (b.nodes.drop b.f) := by
+  have h1 : b.mallocSize = pendSum (b.nodes.drop b.r) := by
+    rw [hR.mlen, ← absL_pending _ (fun nd hnd => hsh.wf nd (List.mem_of_mem_drop hnd)), ← LB.abs_eq, hR.abs]
+    rfl
+  rw [h1, pendSum_take_drop (b.nodes.drop b.r) (b.f - b.r), List.drop_drop,
+    show b.r + (b.f - b.r) = b.f by have := hsh.r_le_f; omega, pendSum_eq_zero, Nat.zero_add]
+  intro nd hnd
+  obtain ⟨i, hi⟩ := List.getElem?_of_mem hnd
+  have hlt : i < b.f - b.r := by
+    have := (List.getElem?_eq_some_iff.1 hi).1
+    simp at this; omega
+  rw [List.getElem?_take, if_pos hlt, List.getElem?_drop] at hi
+  exact (hsh.node _ nd hi).2.1 (by omega)
+
+theorem writeDirect_locate {b : LB α} {q : Q α} (hR : R b q)
+    (hsh : Shape b.nodes b.r b.f b.w false false) (rn : Nat) (hrn : rn ≤ q.mallocLen) :
+    ∃ k mn origin, originLoop (b.nodes.drop b.f) ((b.mallocSize : Int) - (rn : Int)) = some (k, (mn : Int)) ∧
+      b.nodes[b.f + k]? = some origin ∧ mn ≤ origin.pend.length ∧
+      rn + mn = origin.pend.length + pendSum (b.nodes.drop (b.f + k + 1)) := by
+  have hM := hR.mallocSize_eq hsh
+  have hrn' : rn ≤ b.mallocSize := by rw [hR.mlen]; exact hrn
+  have hne : b.nodes.drop b.f ≠ [] := by
+    intro h
+    have := congrArg List.length h
+    have := hsh.wr rfl
+    simp at *; omega
+  have e : (b.mallocSize : Int) - (rn : Int) = ((b.mallocSize - rn : Nat) : Int) := by omega
+  obtain ⟨k, mn, nd, e1, e2, e3, e4⟩ := originLoop_spec (b.nodes.drop b.f) (b.mallocSize - rn)
+    (fun nd hnd => hsh.wf nd (List.mem_of_mem_drop hnd)) (by omega) (Or.inr hne)
+  refine ⟨k, mn, nd, by rw [e]; exact e1, by rw [List.getElem?_drop] at e2; exact e2, e3, ?_⟩
+  have hk : k < (b.nodes.drop b.f).length := (List.getElem?_eq_some_iff.1 e2).1
+  have hd : (b.nodes.drop b.f).drop k = nd :: b.nodes.drop (b.f + k + 1) := by
+    rw [List.drop_eq_getElem_cons hk, List.drop_drop]
+    congr 1
+    exact (List.getElem?_eq_some_iff.1 e2).2
+  have := pendSum_take_drop (b.nodes.drop b.f) k
+  rw [hd, pendSum_cons] at this
+  omega
+
+/-! ### the refinement relation after the insertion -/
+
+theorem R.insert {b b' : LB α} {q : Q α} (hR : R b q) (hd : q.dead = false) (hro : q.readOnly = false)
+    (happ : q.appSinceFlush = false) (p : List α) (rn k mn : Nat) (origin : Node α)
+    (ho : b.nodes[b.f + k]? = some origin) (hmn : mn ≤ origin.pend.length)
+    (hrn : rn + mn = origin.pend.length + pendSum (b.nodes.drop (b.f + k + 1)))
+    (o' : Node α) (rest : List (Node α))
+    (ho1 : o'.off = origin.off) (ho2 : o'.buf = origin.buf)
+    (ho3 : o'.buf.length + o'.pend.length = o'.malloc) (ho4 : o'.malloc ≤ o'.cap)
+    (hrest : ∀ x ∈ rest, x.off = x.buf.length ∧ x.buf.length + x.pend.length = x.malloc ∧ x.malloc ≤ x.cap)
+    (habs : absL (o' :: rest) = origin.readable.map (·, true) ++ (origin.pend.take mn).map (·, false) ++
+      p.map (·, false) ++ (origin.pend.drop mn).map (·, false))
+    (hnodes : b'.nodes = b.nodes.take (b.f + k) ++ (o' :: rest) ++ b.nodes.drop (b.f + k + 1))
+    (hr : b'.r = b.r) (hf : b'.f = b.f) (hw : b'.w = b'.nodes.length - 1)
+    (hl : b'.length = b.length) (hm : b'.mallocSize = b.mallocSize + p.length)
+    (hc : b'.cachePeek = b.cachePeek) :
+    R b' { q with items := q.items.take (q.items.length - rn) ++ p.map (·, false) ++
+                            q.items.drop (q.items.length - rn) } := by
+  have hsh := hR.shape hd
+  rw [hro, happ] at hsh
+  have hoi : b.f + k < b.nodes.length := (List.getElem?_eq_some_iff.1 ho).1
+  have hno := hsh.node _ origin ho
+  obtain ⟨w1, w2, _⟩ := hno.2.2.2.1 rfl
+  have hrf := hsh.r_le_f
+  have hsplit : b.nodes = b.nodes.take (b.f + k) ++ origin :: b.nodes.drop (b.f + k + 1) := by
+    have h1 := List.take_append_drop (b.f + k) b.nodes
+    rw [List.drop_eq_getElem_cons hoi, (List.getElem?_eq_some_iff.1 ho).2] at h1
+    exact h1.symm
+  have hdrop : b.nodes.drop b.r =
+      (b.nodes.take (b.f + k)).drop b.r ++ origin :: b.nodes.drop (b.f + k + 1) := by
+    rw [← List.drop_append_of_le_length (by simp; omega), ← hsplit]
+  have hbehind : ∀ x ∈ b.nodes.drop (b.f + k + 1),
+      x.buf.length + x.pend.length = x.malloc ∧ x.off = x.buf.length := by
+    intro x hx
+    obtain ⟨j, hj⟩ := List.getElem?_of_mem hx
+    rw [List.getElem?_drop] at hj
+    have hn := hsh.node _ x hj
+    exact ⟨(hn.2.2.2.1 rfl).1, hn.2.2.1 rfl (by omega)⟩
+  have hT : (absL (b.nodes.drop (b.f + k + 1))).length = pendSum (b.nodes.drop (b.f + k + 1)) :=
+    absL_length_behind _ (fun x hx => (hbehind x hx).1) (fun x hx => (hbehind x hx).2)
+  have hitems : q.items =
+      (absL ((b.nodes.take (b.f + k)).drop b.r) ++ origin.readable.map (·, true) ++
+        (origin.pend.take mn).map (·, false)) ++
+      ((origin.pend.drop mn).map (·, false) ++ absL (b.nodes.drop (b.f + k + 1))) := by
+    rw [← hR.abs, LB.abs_eq, hdrop, absL, List.flatMap_append, List.flatMap_cons, Node.abs_wf origin w1]
+    conv => lhs; rw [← List.take_append_drop mn origin.pend, List.map_append]
+    simp only [List.append_assoc]
+  refine ⟨?_, ?_, ?_, ?_, ?_, hR.flags⟩
+  · show b'.abs = _
+    rw [insert_split q.items _ _ _ rn hitems (by simp [hT]; omega)]
+    rw [LB.abs_eq, hnodes, hr, List.append_assoc, List.drop_append_of_le_length (by simp; omega), absL,
+      List.flatMap_append, List.flatMap_append]
+    show _ ++ (absL (o' :: rest) ++ _) = _
+    rw [habs]
+    simp only [List.append_assoc]
+  · simp only [Q.len]
+    rw [filter_insert_flushed, hl, hR.len]; rfl
+  · simp only [Q.mallocLen]
+    rw [filter_insert_pending, hm, hR.mlen]; rfl
+  · intro _
+    show Shape b'.nodes b'.r b'.f b'.w q.readOnly q.appSinceFlush
+    rw [hro, happ, hw, hnodes, hr, hf]
+    refine hsh.splice (b.f + k) (by omega) hoi o' rest ⟨?_, ?_, ho3, ho4⟩ hrest
+    · rw [ho1, ho2]; exact hno.1
+    · intro hh; rw [ho1, ho2]; exact hno.2.2.1 rfl hh
+  · intro _ c cp hcc
+    rw [hc] at hcc
+    have := hR.cache hd c cp hcc
+    simp only [Q.flushedBytes]
+    rw [filter_insert_flushed]
+    exact this
+
 end Netpoll.Buf
